@@ -45,6 +45,7 @@ InvMiddle == Is1 => /\ Middle2(Out1(cfg)) - Middle2(In1(cfg)) = 4 * cfg.o * cfg.
                     /\ Out1(cfg).lo = (IF cfg.zf THEN 0 ELSE -(cfg.m \div 2))
 InvSum == Is1 => \A f \in Funs(cfg.n) : SumPreserved1(Shift(f, cfg.lo), In1(cfg), Out1(cfg))
 InvCom == Is1 => \A f \in Funs(cfg.n) : ComKept1(Shift(f, cfg.lo), In1(cfg), Out1(cfg))
+InvComTight == Is1 => \A f \in Funs(cfg.n) : ComKeptTight1(Shift(f, cfg.lo), In1(cfg), Out1(cfg))
 InvUniform == Is1 => \A f \in Funs(cfg.n) : \A a, b \in Idx(In1(cfg)) :
                         a <= b => UniformKept1(Shift(f, cfg.lo), In1(cfg), Out1(cfg), a, b, Shift(f, cfg.lo)[a])
 \* zoom 1 with an offset of whole voxels and enough room only moves the values
